@@ -219,6 +219,9 @@ func descrCorpus() {
 	if os.Getenv("VERIF_C12_NO_N12B") != "" { // mutation self-tests: keep the known finding out of the way
 		ramp = 3
 	}
+	if os.Getenv("VERIF_C12_NO_N12B") == "" { // N12c witness: spread beyond MaxFloat64 (registered known finding)
+		descrOne([]float64{-1e308, 1e308}, true, ps, "corpus+overflow")
+	}
 	for _, xs := range [][]float64{
 		{1}, {1, 2}, {2, 1}, {1, 2, 3, 4, 5}, {5, 4, 3, 2, 1},
 		{15, 20, 35, 40, 50},
